@@ -14,7 +14,18 @@ def err(e):
 
 
 def okey(k):
-    return list(k) if isinstance(k, tuple) else k
+    if isinstance(k, tuple):
+        return [str(x) for x in k]
+    if not isinstance(k, str):
+        return ["<key of type %s>" % type(k).__name__, str(k)]
+    return k
+
+
+def _tuple(v, f):
+    """Tuples are observed as lists of their items; anything else (in particular a list) is made to differ."""
+    if isinstance(v, tuple):
+        return [f(x) for x in v]
+    return ["<%s instead of tuple>" % type(v).__name__, str(v)]
 
 
 def _sortkey(k):
@@ -29,12 +40,14 @@ def canon_info(ri, folder, version):
     """RunInfo field-wise: [all_output_names, shapes, masks, internal_shapes, storage, mapspecs, run_folder, version]."""
     internal = None
     if ri.internal_shapes is not None:
-        internal = [[k, ([int(x) for x in v] if isinstance(v, (tuple, list)) else int(v))]
+        internal = [[k, (_int(v) if isinstance(v, int) and not isinstance(v, bool) else _tuple(v, _int))]
                     for k, v in sorted(ri.internal_shapes.items())]
     storage = ri.storage if isinstance(ri.storage, str) else odict(ri.storage, str)
+    if not isinstance(ri.all_output_names, set) or not isinstance(ri.mapspecs_as_strings, list):
+        raise TypeError("all_output_names must be a set, mapspecs_as_strings a list")
     return [sorted(ri.all_output_names),
-            odict(ri.shapes, lambda v: [_int(x) for x in v]),
-            odict(ri.shape_masks, lambda v: [_bool(x) for x in v]),
+            odict(ri.shapes, lambda v: _tuple(v, _int)),
+            odict(ri.shape_masks, lambda v: _tuple(v, _bool)),
             internal,
             storage,
             sorted(ri.mapspecs_as_strings),
